@@ -85,6 +85,7 @@ func body(p Program, o *obs) func() {
 		}
 		cb := func(list *[]string) filesystem.LoopOn {
 			return func(_ filesystem.Filespace, sub string) error {
+				vsched.Note("cb-begin") // harness observations are ordered events for the happens-before cache
 				if o.waitReturned {
 					o.afterWait++
 				}
@@ -94,6 +95,7 @@ func body(p Program, o *obs) func() {
 				}
 				*list = append(*list, sub)
 				vsched.Point("callback")
+				vsched.Note("cb-end")
 				o.running--
 				if o.waitReturned {
 					o.afterWait++
@@ -116,6 +118,7 @@ func body(p Program, o *obs) func() {
 		loop := fsloop.NewLoop(ld, nil)
 		loop.Run("")
 		loop.Wait()
+		vsched.Note("wait-returned")
 		o.waitReturned = true
 		if o.running != 0 {
 			o.afterWait += o.running
@@ -359,7 +362,10 @@ func run(c *fw.Ctx) {
 	for pi, p := range ps {
 		p := p
 		var o obs
-		opt := explore.Options{Bound: p.Bound, Focus: focus, Shard: c.Shard, Shards: c.Shards, Deadline: c.Deadline, MaxSteps: 4000}
+		if !c.Mine(pi) {
+			continue // whole programs per worker: the happens-before cache is per program
+		}
+		opt := explore.Options{Bound: p.Bound, Focus: focus, NoShard: true, HBR: true, Deadline: c.Deadline, MaxSteps: 4000}
 		b := body(p, &o)
 		st, err := explore.Explore(opt, b, func(x *explore.Exec) bool {
 			c.SetAdd("outcomes", fmt.Sprintf("%s|f=%v d=%v e=%d", p.Name, sorted(o.files), sorted(o.dirs), len(o.errs)))
@@ -388,8 +394,10 @@ func run(c *fw.Ctx) {
 		c.R.Transitions += st.Steps
 		c.R.States += st.TraceKinds
 		c.R.Distinct += st.TraceKinds
-		if c.Shard == 0 {
-			c.R.Programs++
+		c.R.Programs++
+		c.Count("hb_pruned_subtrees", st.Pruned)
+		if len(c.R.Info) < 400 {
+			c.R.Info["execs:"+p.Name+fmt.Sprintf("/p%dc%d", p.Producers, p.Consumers)] = st.Execs
 		}
 		c.Max("points", int64(st.MaxPoints))
 		c.Max("steps", int64(st.MaxSteps))
@@ -398,7 +406,7 @@ func run(c *fw.Ctx) {
 			c.NotExhaustive(fmt.Sprintf("program %s: %s", p.Name, st.CapReason))
 			break
 		}
-		if pi < 2 && c.Shard == 0 {
+		if pi < 2 {
 			c.Sample(map[string]interface{}{"program": p, "executions": st.Execs, "max_choice_points": st.MaxPoints})
 		}
 	}
